@@ -548,3 +548,18 @@ fn update_in_place() {
     ck!(post.view_eq(&pre.touch(i, Some(v0))), "[C02.write][C06.order] update stores the new value and moves the entry to the front");
     core::mem::forget(l);
 }
+
+// ------------------------------------------------------------------ negative control: MUST fail.  If it verifies, the harness
+// machinery of this unit is vacuous (contradictory assumptions, a checker that cannot see failures) and the driver
+// discards the unit's results (exit 2).
+// negative control
+#[kani::proof]
+#[kani::unwind(6)]
+fn negctl_put_never_evicts() {
+    let (mut l, _pre) = any_lru(N, 1);
+    let k: u8 = kani::any();
+    let v: u8 = kani::any();
+    let r = l.put(k, v);
+    ck!(!matches!(r, PutResult::Evicted { .. }), "[negctl] put never evicts (false: a full cache evicts its LRU entry)");
+    core::mem::forget(l);
+}
